@@ -305,6 +305,14 @@ def char_value(t, data):
     t = rules.unfz(t)
     if not isinstance(t, T) or len(t.args) != 2:
         return None
+    if t.op == "idx" and isinstance(t.args[0], bytes) and len(t.args[0]) == 256 and all(t.args[0][c] == i for i, c in enumerate(CHARS)):
+        # a 256-entry translation table (bytes.maketrans / bytes.translate) that agrees with the inverse charset map on the
+        # charset: the 5-bit value of the character. (It does not raise for a foreign character -- that those are refused is
+        # what the decision tables over input cells decide.)
+        ch = rules.unfz(t.args[1])
+        if isinstance(ch, T) and ch.op == "idx" and tm.veq(ch.args[0], data) and isinstance(ch.args[1], int):
+            return ch.args[1]
+        return None
     if t.op not in ("lookup", "m:index"):
         return None
     im = _IM
@@ -559,6 +567,8 @@ def discharged(h):
             return "split() returns at least one element"
         if isinstance(x, T) and x.op == "seq":
             x = rules.unfz(x.args[0])
+        while isinstance(x, T) and (x.op == "tolist" or (x.op == "m:translate" and len(x.args) == 3 and x.args[1] is not None and x.args[2] == b"")):
+            x = rules.unfz(x.args[0])  # list(s) / s.translate(TABLE) have exactly the elements / the length of s
         if i in (0, -1) and any(tm.veq(f, tm.truth(x)) for f in flat):
             return "non-emptiness dominates"
         for f in flat:
@@ -568,6 +578,51 @@ def discharged(h):
             return "constant sequence"
         return None
     return None
+
+
+def _slice_of(a, b):
+    """Is the byte string term a the term b or a (nested) slice of it?"""
+    a, b = rules.unfz(a), rules.unfz(b)
+    for _ in range(6):
+        if tm.veq(a, b):
+            return True
+        if isinstance(a, T) and a.op == "slice":
+            a = rules.unfz(a.args[0])
+        else:
+            return False
+    return False
+
+
+def _excluded_foreign_raise(e):
+    """An explicit raise guarded by "s with the alphabet deleted is not empty" (s.translate(None, ALPHABET)) cannot happen when a
+    dominating assertion has established that a string containing s (s itself or a string s is a slice of) is empty after
+    deleting a subset of that alphabet: every character of s is then in the alphabet."""
+    conds = []
+    for g in e.guard:
+        conds.extend(g.args if isinstance(g, T) and g.op == "land" else [g])
+    known = list(conds) + [f for f in e.facts]
+    flatk = []
+    for f in known:
+        flatk.extend(f.args if isinstance(f, T) and f.op == "land" else [f])
+
+    def foreign(t):
+        if isinstance(t, T) and t.op == "truth":
+            t = t.args[0]
+        if isinstance(t, T) and t.op == "m:translate" and len(t.args) == 3 and t.args[1] is None and isinstance(t.args[2], bytes):
+            return rules.unfz(t.args[0]), set(t.args[2])
+        if isinstance(t, T) and t.op == "slice":  # foreign[:1] and the like
+            return foreign(rules.unfz(t.args[0]))
+        return None
+    for c in conds:
+        fc = foreign(c)
+        if fc is None:
+            continue
+        for f in flatk:
+            if isinstance(f, T) and f.op == "not":
+                ff = foreign(f.args[0])
+                if ff is not None and ff[1] <= fc[1] and _slice_of(fc[0], ff[0]):
+                    return True
+    return False
 
 
 def _boolish(v):
@@ -588,7 +643,7 @@ def check_totality(ctx, oid="C06.1"):
     for q in ("bits.utils.is_segwit_addr", "bits.utils.is_addr"):
         fi = ctx.fn(q)
         s = ev.run(fi)
-        esc = [e for e in s.raises()]
+        esc = [e for e in s.raises() if not _excluded_foreign_raise(e)]
         hr = rules.raising_handlers(fi.node)
         R.check(oid, "EXC", fi, "%s's exception handlers cannot themselves raise" % q.split(".")[-1], not hr,
                 "%s can raise from inside an except branch: %s" % (q.split(".")[-1], hr[0][1] if hr else ""), line=hr[0][0].lineno if hr else None,
